@@ -54,7 +54,7 @@ def in_shape(node) -> str:
     raise Untranslatable("in-coercer: " + ast.dump(node)[:200])
 
 
-def out_shape(node) -> str:
+def out_shape(node, pytype: str = "") -> str:
     if _is_name(node, "str"):
         return ".str"
     lam = _lambda1(node)
@@ -71,15 +71,27 @@ def out_shape(node) -> str:
             return f"(.boolOut {chars(body.body.value)} {chars(body.orelse.value)})"
         # x.isoformat(...)
         if (isinstance(body, ast.Call) and isinstance(body.func, ast.Attribute) and body.func.attr == "isoformat"
-                and _is_name(body.func.value, arg) and not body.keywords
-                and all(isinstance(x, ast.Constant) for x in body.args)):
+                and _is_name(body.func.value, arg)
+                and all(isinstance(x, ast.Constant) for x in body.args)
+                and all(k.arg in ("sep", "timespec") and isinstance(k.value, ast.Constant) for k in body.keywords)):
             args = [x.value for x in body.args]
-            if args == []:
-                return ".iso0"
-            if args == ["T", "seconds"]:
-                return ".isoTSec"
-            if args == ["seconds"]:
-                return ".isoSec"
+            kws = {k.arg: k.value.value for k in body.keywords}
+            if not kws:
+                if args == []:
+                    return ".iso0"
+                if args == ["T", "seconds"]:
+                    return ".isoTSec"
+                if args == ["seconds"]:
+                    return ".isoSec"
+            # keyword spellings of the same calls (second precision, separator T)
+            if kws.get("timespec") == "seconds" and kws.get("sep", "T") == "T":
+                if args == [] and "sep" not in kws:
+                    if pytype == "time":
+                        return ".isoSec"
+                    if pytype == "datetime":
+                        return ".isoTSec"
+                if (args == ["T"] and "sep" not in kws) or (args == [] and "sep" in kws):
+                    return ".isoTSec"
     raise Untranslatable("out-coercer: " + ast.dump(node)[:200])
 
 
@@ -114,7 +126,7 @@ def type_table(repo: Path):
                 if not _is_name(fields["validator"], "require_tzinfo"):
                     raise Untranslatable(f"row {k.value}: validator")
                 need_tz = "true"
-            rows.append(f"  ⟨{chars(k.value)}, {PYTYPES[ty.id]}, {need_tz}, {in_shape(fields['in'])}, {out_shape(fields['out'])}⟩")
+            rows.append(f"  ⟨{chars(k.value)}, {PYTYPES[ty.id]}, {need_tz}, {in_shape(fields['in'])}, {out_shape(fields['out'], ty.id)}⟩")
         return rows
     raise Untranslatable("STATE_VARIABLE_TYPE_MAPPING not found")
 
